@@ -251,7 +251,11 @@ class Enumerator:
         base_exc: bool = False,  # also generate BaseException-only exceptional edges
         memo_self: bool = False,  # memoise conditions rooted in `self`
         max_results: int = 60000,
+        may_raise: Optional[Callable[["Ev"], bool]] = None,  # which calls get an exceptional edge
+        stable_self_attrs: Optional[set] = None,  # init-only, non-container attributes of `self`
     ):
+        self.may_raise = may_raise
+        self.stable_self_attrs = stable_self_attrs or set()
         self.p = program
         self.r = resolver
         self.inline_pred = inline
@@ -652,11 +656,20 @@ class Enumerator:
             return [(st, c)]
         neg = False
         t = v
-        while isinstance(t, ast.UnaryOp) and isinstance(t.op, ast.Not):
-            neg = not neg
-            t = t.operand
+        while True:
+            if isinstance(t, ast.UnaryOp) and isinstance(t.op, ast.Not):
+                neg = not neg
+                t = t.operand
+                continue
+            # canonical polarity: `a is not b` == not (a is b), `!=` == not `==`, `not in` == not `in`
+            if isinstance(t, ast.Compare) and len(t.ops) == 1 and isinstance(t.ops[0], (ast.IsNot, ast.NotEq, ast.NotIn)):
+                pos = {ast.IsNot: ast.Is, ast.NotEq: ast.Eq, ast.NotIn: ast.In}[type(t.ops[0])]()
+                t = ast.Compare(left=t.left, ops=[pos], comparators=list(t.comparators))
+                neg = not neg
+                continue
+            break
         key = key_of(t)
-        memoizable = memo and not contains_call(t) and (self.memo_self or not mentions(t, "self"))
+        memoizable = memo and not contains_call(t) and (self.memo_self or self._self_stable(t))
         if memoizable and key in st.known:
             b = st.known[key]
             return [(st, (not b) if neg else b)]
@@ -667,6 +680,31 @@ class Enumerator:
                 s2 = s2.know(key, b)
             out.append((s2, (not b) if neg else b))
         return out
+
+    def _self_stable(self, t: ast.AST) -> bool:
+        """No part of `t` reads mutable state of `self`: every `self.<a>` in it is an init-only,
+        non-container attribute, and `self` does not occur otherwise."""
+        ok = True
+
+        def walk(n, parent_attr_of_self=False):
+            nonlocal ok
+            if isinstance(n, ast.Attribute) and isinstance(n.value, ast.Name) and n.value.id == "self":
+                if n.attr not in self.stable_self_attrs:
+                    ok = False
+                return
+            if isinstance(n, ast.Name) and n.id == "self":
+                ok = False
+                return
+            for c in ast.iter_child_nodes(n):
+                walk(c)
+
+        walk(t)
+        # a stable attribute used as the root of a longer chain reads another object's state
+        for n in ast.walk(t):
+            if isinstance(n, ast.Attribute) and isinstance(n.value, ast.Attribute) and isinstance(n.value.value, ast.Name) \
+                    and n.value.value.id == "self":
+                ok = False
+        return ok
 
     # ------------------------------------------------------------------ expressions (CPS)
     def ev_list(self, nodes, st, k, acc=None):
@@ -698,7 +736,7 @@ class Enumerator:
             # a property read is a call: keep the identity of its result (`$pN`) and its position
             ev = Ev("prop", t, n, st2.fn, {"callee": getter, "try": self._try_depth > 0})
             st3 = st2.emit(ev)
-            return k(st3, N(f"$p{ev.idx}"))
+            return k(st3, N(f"$p{ev.idx}")) + self._raise_variants(st3, n)
 
         return self.ev(n.value, st, ka)
 
@@ -853,7 +891,9 @@ class Enumerator:
                 st3 = st2.emit(ev)
                 ph = N(f"$c{ev.idx}")
                 # receiver mutation invalidates memoised conditions over the receiver
-                if isinstance(f, ast.Attribute):
+                if isinstance(f, ast.Attribute) and not (isinstance(f.value, ast.Name) and f.value.id == "self"):
+                    # (conditions memoised about `self` are restricted to init-only attributes,
+                    # which a method call on self cannot change)
                     rk = key_of(f.value)
                     st3 = st3.forget(lambda key: rk in key)
                 target = self._inline_target(callees, st3, n)
@@ -868,6 +908,8 @@ class Enumerator:
 
     def _raise_variants(self, st: St, node):
         if self._try_depth <= 0 or self.exc_edges == "none":
+            return []
+        if self.may_raise is not None and st.events and not self.may_raise(st.events[-1]):
             return []
         out = []
         classes = ["Exception*"] + (["BaseException*"] if self.base_exc else [])
